@@ -217,7 +217,8 @@ def replay_container(prop, path):
         r = C.Replayer(p["kind"], True, p["n"], p["family"], seed=p["replay_seed"], queries=False, plan={"hash": 1.0})
         trace = r.run_twins(p["calls"])
     else:
-        r = C.Replayer(p["kind"], p["weighted"], p["n"], p["family"], seed=p["replay_seed"], **ra)
+        r = C.Replayer(p["kind"], p["weighted"], p["n"], p["family"], seed=p["replay_seed"],
+                       late=(p["replay_seed"] % 4 == 3), **ra)
         trace = r.run(p["calls"])
     v = C.validate(p["kind"], [trace], procs=1)
     wanted = set(rp["signature"].get("clauses", []))
